@@ -241,6 +241,8 @@ def prove(ctx: Ctx, goals, rounds=2, maxdeg=6, timeout_ms=20000, extra=(), produ
     targets = set()
     for g in todo:
         targets.update(g.p.t.keys())
+    # the degree bound is relative to the goals: multipliers may raise the degree by `maxdeg - 4` at most
+    maxdeg = max(g.p.degree() for g in todo) + max(2, maxdeg - 4)
     lemmas = saturate(eqs, targets, rounds=rounds, maxdeg=maxdeg)
     prod_lemmas = []
     if products:
